@@ -168,6 +168,66 @@ def decision_table(chk, tmp):
     return out
 
 
+def api_table(chk, tmp):
+    """the same guards through the PT-TEMPO entry points (pt_tempo_compute, PtTempo): existing file x overwrite x unique"""
+    import oqupy
+    corr = oqupy.PowerLawSD(alpha=0.1, zeta=1, cutoff=3.0, cutoff_type="exponential")
+    bath = oqupy.Bath(0.5 * oqupy.operators.sigma("z"), corr)
+    par = oqupy.TempoParameters(dt=0.1, epsrel=1e-4, dkmax=2)
+    k = 0
+    for entry in ("pt_tempo_compute", "PtTempo"):
+        for unique in (False, True):
+            for overwrite in (False, True):
+                for exists in (False, True):
+                    k += 1
+                    fn = os.path.join(tmp, f"api_{k}.hdf5")
+                    marker = None
+                    if exists:
+                        seed = ptm.FileProcessTensor("write", fn, 2, name="ORIGINAL")
+                        seed.close()
+                        marker = open(fn, "rb").read()
+                    info = {"kind": "api-table", "entry": entry, "unique": unique, "overwrite": overwrite, "file_exists": exists}
+                    chk.search_cases += 1
+                    chk.count("api_table")
+                    chk.case(info, ("api", entry, unique, overwrite, exists))
+                    pt = None
+                    try:
+                        if entry == "pt_tempo_compute":
+                            pt = oqupy.pt_tempo_compute(bath, 0.0, 0.2, parameters=par, unique=unique, process_tensor_file=fn, overwrite=overwrite,
+                                                        progress_type="silent")
+                        else:
+                            pt = oqupy.PtTempo(bath, 0.0, 0.2, par, unique=unique, process_tensor_file=fn, overwrite=overwrite).get_process_tensor(progress_type="silent")
+                        raised = False
+                    except FileExistsError:
+                        raised = True
+                    except Exception as ex:
+                        chk.fail("api-table-raises", f"{entry}(unique={unique}, overwrite={overwrite}) on {'an existing' if exists else 'a new'} file raises {ex!r}", info)
+                        continue
+                    if exists and not overwrite:
+                        if not raised or open(fn, "rb").read() != marker:
+                            chk.fail("clobbered", f"{entry}(unique={unique}, overwrite=False, process_tensor_file=<existing file>) "
+                                     + ("did not refuse" if not raised else "refused") + " and the existing file "
+                                     + ("was replaced" if open(fn, "rb").read() != marker else "is unchanged"), info)
+                    elif raised:
+                        chk.fail("api-table-raises", f"{entry}(unique={unique}, overwrite={overwrite}) refuses although "
+                                 + ("overwriting was requested" if exists else "the file does not exist"), info)
+                    if pt is not None:
+                        # remove(): entitled only if the object may overwrite (or owns a temporary file)
+                        try:
+                            pt.remove()
+                            removed = True
+                        except FileExistsError:
+                            removed = False
+                            pt.close()
+                        except Exception as ex:
+                            chk.fail("remove-crashes", f"remove() raised {ex!r}", info)
+                            continue
+                        if removed != overwrite or (removed == os.path.exists(fn)):
+                            chk.fail("remove-guard", f"{entry}(unique={unique}, overwrite={overwrite}): remove() "
+                                     + ("deleted a file the object was not entitled to delete" if removed and not overwrite else
+                                        "was refused although overwriting was requested" if not removed and overwrite else "is inconsistent with the file system"), info)
+
+
 def run(chk):
     rng = chk.rng
     thorough = chk.tier == "thorough"
@@ -179,6 +239,8 @@ def run(chk):
         exprs.append("mode_table")
         expected.append(decision_table(chk, tmp))
         meta.append({"kind": "tables"})
+
+        api_table(chk, tmp)
 
         # (b) crash enumeration on the real writers
         jobs = []
